@@ -27,10 +27,12 @@ import asyncio
 import inspect
 import logging
 import uuid
+from collections import deque
 from typing import (
     Any,
     Awaitable,
     Callable,
+    Deque,
     Dict,
     List,
     Optional,
@@ -135,6 +137,10 @@ class Interpreter(BaseInterpreter[TContext, TEvent]):
         #: a macrostep completes without having done so. Bounds a runaway
         #: `raise` without ever throttling external `send()` traffic.
         self._raise_depth: int = 0
+        # 🔗 Chain length of each queued event, parallel to `_event_queue`
+        #    (0 for an event from outside, parent + 1 for a self-raised one).
+        self._event_depths: Deque[int] = deque()
+        self._next_event_depth: int = 0
         #: True while `_run_event_loop` is inside `_process_event...`.
         self._processing: bool = False
 
@@ -380,6 +386,11 @@ class Interpreter(BaseInterpreter[TContext, TEvent]):
         event_obj = self._prepare_event(event_or_type, **payload)
 
         # 📥 Place the standardized event object into the async queue.
+        # 🔗 A self-raised event announces its chain length just before it
+        #    gets here (see `_deliver` / `_check_and_fire_on_done`); anything
+        #    else starts a chain of its own.
+        self._event_depths.append(self._next_event_depth)
+        self._next_event_depth = 0
         await self._event_queue.put(event_obj)
 
     async def send_events(
@@ -405,6 +416,7 @@ class Interpreter(BaseInterpreter[TContext, TEvent]):
 
         for event in events:
             event_obj = self._prepare_event(event)
+            self._event_depths.append(0)
             await self._event_queue.put(event_obj)
 
     # -------------------------------------------------------------------------
@@ -433,8 +445,16 @@ class Interpreter(BaseInterpreter[TContext, TEvent]):
             while self.status == "running":
                 # 📬 Wait indefinitely for the next event from the queue.
                 event = await self._event_queue.get()
+                depth = (
+                    self._event_depths.popleft() if self._event_depths else 0
+                )
 
-                if self._raise_depth > limit:
+                # 🔗 Only an event whose OWN chain of self-raised events is
+                #    too long is dropped. A counter shared by the whole queue
+                #    could not tell a runaway chain from many queued events
+                #    that each raise one follow-up, and dropped whichever
+                #    external event happened to be next.
+                if depth > limit:
                     logger.error(
                         "🛑 Exceeded %d chained self-raised events on '%s'. "
                         "This means an action raises the event that triggers "
@@ -443,7 +463,6 @@ class Interpreter(BaseInterpreter[TContext, TEvent]):
                         limit,
                         self.id,
                     )
-                    self._raise_depth = 0
                     self._event_queue.task_done()
                     continue
 
@@ -477,11 +496,10 @@ class Interpreter(BaseInterpreter[TContext, TEvent]):
                 #    here; we log and carry on with the next event.
                 try:
                     self._processing = True
-                    depth_before = self._raise_depth
+                    # 🔗 Events raised while this one is processed continue
+                    #    ITS chain.
+                    self._raise_depth = depth
                     await self._process_event_and_transient_transitions(event)
-                    # ✅ A macrostep that raised nothing ends the chain.
-                    if self._raise_depth == depth_before:
-                        self._raise_depth = 0
                 except asyncio.CancelledError:
                     raise
                 except Exception as exc:
@@ -495,6 +513,7 @@ class Interpreter(BaseInterpreter[TContext, TEvent]):
                     )
                 finally:
                     self._processing = False
+                    self._raise_depth = 0
 
                 self._event_queue.task_done()
 
@@ -811,7 +830,7 @@ class Interpreter(BaseInterpreter[TContext, TEvent]):
             #    `_run_event_loop` can break the chain; external `send()`
             #    calls never pass through here.
             if actor is self and self._processing:
-                self._raise_depth += 1
+                self._next_event_depth = self._raise_depth + 1
             await self._send_to_actor(actor, target_event)
             return
 
